@@ -1009,7 +1009,7 @@ pub fn reader_skip_bytes<R: Read>(reader: &mut R, n: usize) -> (r: Result<VisVal
 { unimplemented!() }
 impl<R: Read> Deserializer<R> {
 //@@ fn file=serde_amqp/src/de.rs impl=`~de::Deserializer<'de>for&mutDeserializer<R>` name=deserialize_seq
-//@@ subst `self.reader .forward_read_bytes_with_hint(rest, de::IgnoredAny)` => `reader_skip_bytes(&mut self.reader, rest)` rule=R9
+//@@ subst `self.reader .forward_read_bytes_with_hint(__E1, de::IgnoredAny)` => `reader_skip_bytes(&mut self.reader, __E1)` rule=R9
 //@@ selfmut
 //@@ qmark
 //@@ generics
